@@ -226,7 +226,9 @@ func (handler *Handler) loadByteArray(source []byte) (net1 *dhcpSubnet, net2 *dh
 
 			// if mac is captured, validate the IP is in the net2 subnet
 			if handler.session.IsCaptured(v.Addr.MAC) {
-				if net2.LAN.Contains(v.Addr.IP) {
+				// only a usable host address of the netfilter subnet: its network and broadcast addresses are
+				// ordinary addresses of the (larger) home LAN and may have been leased there before the capture
+				if net2.LAN.Contains(v.Addr.IP) && v.Addr.IP != net2.LAN.Addr() && v.Addr.IP != net2.broadcast {
 					v.subnet = net2
 				}
 			}
